@@ -32,7 +32,7 @@ from ..explorer import Step
 
 PROPERTY = "C01"
 ALPHABET = "profiles P1..P5 (see module docstring and PROFILES); deliveries: next frame, first 1 / 9 bytes of next frame, flush"
-QUICK_DEPTH = {"P4": 4, "P5": 4, "P1": 5, "P2": 5, "P3": 6, "P6": 6, "P7": 6, "P8": 6}
+QUICK_DEPTH = {"P4": 4, "P5": 4, "P1": 5, "P2": 5, "P3": 6, "P6": 6, "P7": 6, "P8": 6, "P9": 6}
 BOUNDS = {"quick": "profiles to depth %s, <=1 deviation (a raising call, or one window of non-lock-step delivery), two start states" % (sorted(QUICK_DEPTH.items()),), "thorough": "depth 7, <=2 deviations (or time budget, reported)"}
 C, S = P.C, P.S
 REQ = H.REQ_POST + [(b"X-Mixed", b" padded "), (b"accept", b"*/*")]
@@ -116,6 +116,16 @@ def calls():
     add("c:ack1-2000", C, "acknowledge_received_data", (2000, 1), {}, [])
     add("c:ack1-40000", C, "acknowledge_received_data", (40000, 1), {}, [])
     add("s:data1-2000", S, "send_data", (1, b"y" * 2000), {}, [("data", 1, b"y" * 2000, False)])
+    add("s:data1pad", S, "send_data", (1, b"p" * 10), {"pad_length": 200}, [("data", 1, b"p" * 10, False)])
+    # P9: two changes of the same setting in flight, frames sized between the two values
+    add("s:set-mfs-16384", S, "update_settings", ({5: 16384},), {}, [("settings", ((5, 16384),))])
+    add("c:data1-20000", C, "send_data", (1, b"q" * 20000), {}, [("data", 1, b"q" * 20000, False)])
+    add("c:set-mfs", C, "update_settings", ({5: 32768},), {}, [("settings", ((5, 32768),))])
+    add("c:set-mfs-16384", C, "update_settings", ({5: 16384},), {}, [("settings", ((5, 16384),))])
+    add("s:data1-20000", S, "send_data", (1, b"q" * 20000), {}, [("data", 1, b"q" * 20000, False)])
+    add("c:prio3-w1", C, "prioritize", (3,), {"weight": 1}, [("priority", 3, 1, 0, False)])
+    add("c:req7prio-w1", C, "send_headers", (7, REQ), {"priority_weight": 1, "priority_exclusive": True, "end_stream": True},
+        [hdr(7, "request", REQ, True), ("priority", 7, 1, 0, True)])
     return T
 
 
@@ -128,10 +138,12 @@ PROFILES = {
            "c:req3", "s:push3", "s:resp3es", "s:resp4es"],
     "P4": ["c:req1", "s:resp1", "c:data1", "s:data1", "c:set-iws-down", "s:set-iws-down", "c:set-iws-up", "s:set-mfs", "c:set-hts0",
            "s:set-hts0", "c:set-mcs1", "s:set-mcs1", "c:set-unknown", "c:set-push0", "c:req3es", "s:resp3es"],
-    "P5": ["c:req1", "s:resp1", "c:ping", "s:ping", "c:prio1", "c:req5prio", "s:altsvc", "s:altsvc1", "c:incr", "s:incr", "c:ack1",
+    "P5": ["c:req1", "s:resp1", "c:ping", "s:ping", "c:prio1", "c:prio3-w1", "c:req7prio-w1", "c:req5prio", "s:altsvc", "s:altsvc1", "c:incr", "s:incr", "c:ack1",
            "s:ack1", "s:data1", "c:close", "s:close"],
     "P6": ["c:head1", "c:head1es", "c:trailers1", "c:end1", "s:info1", "s:resp1cl", "s:resp1cl-es", "s:resp1-304es", "s:end1", "s:trailers1"],
-    "P8": ["c:reqbig1", "c:req1", "s:resp1", "s:fill1", "c:ack1-2000", "c:ack1-40000", "s:data1-2000", "s:data1", "c:data1"],
+    "P8": ["c:reqbig1", "c:req1", "s:resp1", "s:fill1", "c:ack1-2000", "c:ack1-40000", "s:data1-2000", "s:data1", "c:data1",
+           "s:data1pad", "c:incr"],
+    "P9": ["c:req1", "s:resp1", "s:set-mfs", "s:set-mfs-16384", "c:data1-20000", "c:set-mfs", "c:set-mfs-16384", "s:data1-20000"],
     "P7": ["c:req1", "s:push1", "s:resp2", "s:data2", "s:data2es", "c:set-iws-down", "c:set-iws-6", "c:set-iws-up", "c:incr2", "s:set-mfs",
            "s:resp1es"],
 }
